@@ -279,6 +279,20 @@ func (ec *EvalCtx) bin(e *CExpr) Val {
 }
 
 func (ec *EvalCtx) valEq(a, b Val, e *CExpr) Term {
+	// interior pointers: nil iff the enclosing object is nil; equal iff same object and path
+	if pa, ok := a.(PtrV); ok && pa.Path != "" {
+		if tb, ok := b.(TV); ok && tb.T.S == "0" {
+			return tEq(pa.Base, tInt(0))
+		}
+		if pb, ok := b.(PtrV); ok && pb.Path == pa.Path && pb.Root == pa.Root {
+			return tEq(pa.Base, pb.Base)
+		}
+	}
+	if pb, ok := b.(PtrV); ok && pb.Path != "" {
+		if ta, ok := a.(TV); ok && ta.T.S == "0" {
+			return tEq(pb.Base, tInt(0))
+		}
+	}
 	switch x := a.(type) {
 	case SliceV:
 		y, ok := b.(SliceV)
@@ -640,7 +654,11 @@ func (ec *EvalCtx) call(e *CExpr) Val {
 			x := ec.eval(e.Args[0].Args[0])
 			if p, ok := ec.ptrOf(x); ok {
 				if np, ok := fieldPtr(p, e.Args[0].Name); ok {
-					return TV{st.encodePtr(np), types.NewPointer(np.Elem)}
+					if np.Path == "" {
+						return TV{st.encodePtr(np), types.NewPointer(np.Elem)}
+					}
+					np.Typ = types.NewPointer(np.Elem)
+					return np
 				}
 			}
 			fail("$addr: cannot take the address of %s", e.Args[0])
@@ -682,6 +700,11 @@ func (ec *EvalCtx) call(e *CExpr) Val {
 	case "$impl":
 		vc.modules["iface"] = true
 		iname := e.Args[0].String()
+		if t := ec.resolveType(iname); t != nil {
+			if n, ok := types.Unalias(t).(*types.Named); ok {
+				iname = qualifiedName(n)
+			}
+		}
 		vc.strLits["impl."+iname] = "impl"
 		return TV{tAnd(tNot(tEq(argT(1), tInt(0))), app(smtIdent("impl."+iname), SBool, app("typeof", SInt, argT(1)))), bt}
 	case "$held":
